@@ -199,6 +199,7 @@ class ExprMixin:
                 if mode == 'val': return text
                 if mode == 'ptr': return '(*%s)' % text
                 if mode == 'alias': return text
+                if mode == 'mapelem': raise Unsupported('map element used as a whole pair at ' + self.where(n))
             d = self.byid.get(rid)
             if d is not None and (d.get('storageClass') == 'static' or d.get('constexpr')) and d['id'] not in self.vars:
                 return self.static_var(d)
@@ -337,6 +338,10 @@ class ExprMixin:
         d = self.byid.get(rid)
         if d is not None and d.get('kind') == 'VarDecl':
             return self.static_var(d)
+        cb = self.skip(base)
+        if cb.get('kind') == 'DeclRefExpr' and self.vars.get(cb['referencedDecl']['id'], (None,))[0] == 'mapelem' and name in ('first', 'second'):
+            rng, ix = self.vars[cb['referencedDecl']['id']][1]
+            return '%s.%s[%s]' % (rng, 'keys' if name == 'first' else 'vals', ix)
         b = self.expr(base)
         if d is not None and d.get('kind') == 'FieldDecl' and self.tyq(d['type']).ref:
             # reference member stored as pointer
